@@ -25,9 +25,11 @@ VARIABLES l,         \* next line of the trace
           before,    \* mode "cancel": Report calls that had returned when the run was cancelled
           pending,   \* bag (expected line -> count) of reports not yet seen in the sink
                      \* (phout: column tuples; jsonlines: samples)
-          nrep, nmatched, nwritten, cancelled, closed, ended, bad
+          nrep, nmatched, nwritten, cancelled, closed, ended, bad,
+          fault,     \* what the sink of this run is told to do ("": work; "err" | "partial" | "short" | "close")
+          faulted    \* the sink HAS failed (the aggregator was handed an error / a short count)
 
-vars == <<l, kind, ids, mode, before, pending, nrep, nmatched, nwritten, cancelled, closed, ended, bad>>
+vars == <<l, kind, ids, mode, before, pending, nrep, nmatched, nwritten, cancelled, closed, ended, bad, fault, faulted>>
 
 Trace == ndJsonDeserialize(IOEnv.VERIF_TRACE)
 Ev == Trace[l]
@@ -39,10 +41,11 @@ Flag(cond, name) == IF cond THEN {} ELSE {name}
 StopModes == {"cancel", "provfail"}
 
 \* the abstract sample of a logged report
-Abs(s) == [sec |-> s.sec, ms |-> s.ms, tag |-> s.tag, id |-> s.id, f |-> s.f]
+Abs(s) == [sec |-> s.sec, ms |-> s.ms, tag |-> s.tag, tagp |-> (IF "tagp" \in DOMAIN s THEN s.tagp ELSE <<>>), id |-> s.id, f |-> s.f]
 \* kinds without a result file: "log" writes every sample through to the logger (the entry is the line),
-\* "discard" throws every sample away
-NoFile == {"log", "discard"}
+\* "discard" throws every sample away, "test" (aggregator.NewTest) keeps every sample in memory (read when Run
+\* has returned: "StdDrained")
+NoFile == {"log", "discard", "test"}
 LogEntry(s) == "Sample reported: S" \o ToString(s.g) \o "-" \o ToString(s.i)
 Expect(s) == IF kind = "phout" THEN PhoutLine(Abs(s), ids) ELSE IF kind = "log" THEN LogEntry(s) ELSE s
 
@@ -51,11 +54,12 @@ AddN(bag, x, n) == IF x \in DOMAIN bag THEN [bag EXCEPT ![x] = @ + n] ELSE bag @
 Has(bag, x) == x \in DOMAIN bag /\ bag[x] > 0
 
 Init == /\ l = 1 /\ kind = "" /\ ids = FALSE /\ mode = "" /\ before = -1 /\ pending = <<>> /\ nrep = 0 /\ nmatched = 0 /\ nwritten = 0
-        /\ cancelled = FALSE /\ closed = FALSE /\ ended = TRUE /\ bad = {}
+        /\ cancelled = FALSE /\ closed = FALSE /\ ended = TRUE /\ bad = {} /\ fault = "" /\ faulted = FALSE
 
 Run == /\ Ev.ev = "Run"
        /\ kind' = Ev.kind /\ ids' = Ev.ids /\ mode' = Ev.mode /\ before' = -1 /\ pending' = <<>> /\ nrep' = 0 /\ nmatched' = 0 /\ nwritten' = 0
        /\ cancelled' = FALSE /\ closed' = FALSE /\ ended' = FALSE
+       /\ fault' = Ev.fault /\ faulted' = FALSE
        /\ bad' = bad \cup Flag(ended, "PreviousRunNotEnded")
 
 \* one report, or (mode "dropstress") n reports of the same sample by one goroutine
@@ -65,7 +69,7 @@ Report == /\ Ev.ev \in {"Report", "Reports"}
              /\ nrep' = nrep + n
           /\ bad' = bad \cup Flag(WellFormedSample(Abs(Ev.s)), "DriverSampleOutsideDomain")
                         \cup Flag(~cancelled \/ mode \in StopModes, "DriverReportAfterCancel")
-          /\ UNCHANGED <<kind, ids, mode, before, nmatched, nwritten, cancelled, closed, ended>>
+          /\ UNCHANGED <<kind, ids, mode, before, nmatched, nwritten, cancelled, closed, ended, fault, faulted>>
 
 \* a complete line reached the sink
 Written(x) == /\ LET m == Has(pending, x) IN
@@ -75,7 +79,7 @@ Written(x) == /\ LET m == Has(pending, x) IN
                                \cup Flag(~closed, "WriteAfterClose")
                                \cup Flag(~ended, "WriteAfterReturn")
               /\ nwritten' = nwritten + 1
-              /\ UNCHANGED <<kind, ids, mode, before, nrep, cancelled, closed, ended>>
+              /\ UNCHANGED <<kind, ids, mode, before, nrep, cancelled, closed, ended, fault, faulted>>
 Line  == Ev.ev = "Line" /\ Written(Ev.c)
 LogLine == Ev.ev = "LogLine" /\ Ev.level = "info" /\ Written(Ev.msg)
 JLine == Ev.ev = "JLine" /\ Written(Ev.s)
@@ -84,22 +88,42 @@ BadLine == /\ Ev.ev \in {"BadLine", "WriteAfterClose", "ReportBlocked"}
            /\ bad' = bad \cup (IF Ev.ev = "BadLine" THEN {"MalformedLine"}
                               ELSE IF Ev.ev = "ReportBlocked" THEN {"ReportBlockedWithRoomInTheQueue"} ELSE {"WriteAfterClose"})
            /\ nwritten' = nwritten + (IF Ev.ev = "BadLine" THEN 1 ELSE 0)
-           /\ UNCHANGED <<kind, ids, mode, before, pending, nrep, nmatched, cancelled, closed, ended>>
+           /\ UNCHANGED <<kind, ids, mode, before, pending, nrep, nmatched, cancelled, closed, ended, fault, faulted>>
+
+\* the sink fails (Aggregator!WriteFails / a failing Close): logged by the sink before its call returns
+SinkFault == /\ Ev.ev = "SinkFault"
+             /\ faulted' = TRUE
+             /\ bad' = bad \cup Flag(fault = Ev.how, "DriverFaultNotPlanned")
+                           \cup Flag(~ended, "WriteAfterReturn")
+             /\ UNCHANGED <<kind, ids, mode, before, pending, nrep, nmatched, nwritten, cancelled, closed, ended, fault>>
 
 Cancel == /\ Ev.ev = "Cancel"
           /\ cancelled' = TRUE
           /\ before' = IF mode = "cancel" THEN Ev.returned_before ELSE before
-          /\ UNCHANGED <<kind, ids, mode, pending, nrep, nmatched, nwritten, closed, ended, bad>>
+          /\ UNCHANGED <<kind, ids, mode, pending, nrep, nmatched, nwritten, closed, ended, bad, fault, faulted>>
 
 SinkClosed == /\ Ev.ev = "SinkClosed"
               /\ closed' = TRUE
+              \* a sink that refused bytes mid-line keeps that torn line; otherwise the last line is complete
+              /\ bad' = bad \cup Flag(Ev.partial = 0 \/ faulted, "PartialLastLine") \cup Flag(~closed, "ClosedTwice")
+              /\ UNCHANGED <<kind, ids, mode, before, pending, nrep, nmatched, nwritten, cancelled, ended, fault, faulted>>
+
+\* aggregators made by the registered factories write to a file of the recording fs: the destination is created and
+\* truncated, never opened for append (Sink.tla: Open); a standard stream is not closed - the driver closes its end
+\* of the pipe when Run has returned and logs what was left of a last line
+Open == /\ Ev.ev = "Open"
+        /\ bad' = bad \cup Flag(Ev.create /\ Ev.trunc, "NotCreatedOrNotTruncated") \cup Flag(~Ev.append, "OpenedForAppend")
+                      \cup Flag(~closed /\ nwritten = 0, "OpenedAfterWriteOrClose")
+        /\ UNCHANGED <<kind, ids, mode, before, pending, nrep, nmatched, nwritten, cancelled, closed, ended, fault, faulted>>
+StdDrained == /\ Ev.ev = "StdDrained"
+              /\ closed' = TRUE
               /\ bad' = bad \cup Flag(Ev.partial = 0, "PartialLastLine") \cup Flag(~closed, "ClosedTwice")
-              /\ UNCHANGED <<kind, ids, mode, before, pending, nrep, nmatched, nwritten, cancelled, ended>>
+              /\ UNCHANGED <<kind, ids, mode, before, pending, nrep, nmatched, nwritten, cancelled, ended, fault, faulted>>
 
 EngineEnd == /\ Ev.ev = "EngineEnd"
              /\ bad' = bad \cup Flag(~Ev.timeout, "EngineDidNotStop")
                            \cup Flag(mode \in StopModes \/ Ev.err = "<nil>", "EngineRunFailed")
-             /\ UNCHANGED <<kind, ids, mode, before, pending, nrep, nmatched, nwritten, cancelled, closed, ended>>
+             /\ UNCHANGED <<kind, ids, mode, before, pending, nrep, nmatched, nwritten, cancelled, closed, ended, fault, faulted>>
 
 \* Aggregator.Run returned: THE property (Aggregator!CompleteAtReturn on what is observable)
 RunEnd == /\ Ev.ev = "RunEnd"
@@ -107,30 +131,35 @@ RunEnd == /\ Ev.ev = "RunEnd"
           /\ bad' = bad \cup Flag(~Ev.timeout, "RunDidNotReturn")
                         \cup Flag(closed \/ kind \in NoFile, "NotClosedAtReturn")
                         \cup Flag(kind = "discard" => nwritten = 0 /\ Ev.dropped = 0, "DiscardWroteOrCounted")
-                        \cup (IF mode \in StopModes
+                        \cup (IF faulted
+                              \* Aggregator!NoSilentLoss: the sink failed => Run's result says so; nothing is invented
+                              THEN Flag(Ev.err # "", "SinkFailureNotReported")
+                                   \cup Flag(nwritten + Ev.dropped <= nrep, "MoreLinesPlusDropsThanReports")
+                              ELSE IF mode \in StopModes
                               \* cancelled mid-run: shots in flight may report after the drain (Shutdown.tla: lateLost)
                               THEN Flag(before >= 0 /\ CompleteBetween(nwritten, Ev.dropped, before, nrep),
                                         "ReportsMadeBeforeTheCancelMissing")
                               ELSE IF kind = "discard" THEN {}
                               ELSE Flag(CompleteCounts(nwritten, Ev.dropped, nrep), "LinesPlusDropsIsNotReports")
                                    \cup Flag(nrep - nmatched = Ev.dropped, "UnwrittenIsNotDropped"))
-                        \cup Flag(kind \in {"phout", "log"} => Ev.dropped = 0, "BlockingAggregatorDropped")
-                        \cup Flag(Ev.err = "", "UnexpectedRunError")
-          /\ UNCHANGED <<kind, ids, mode, before, pending, nrep, nmatched, nwritten, cancelled, closed>>
+                        \cup Flag(kind \in {"phout", "log", "test"} => Ev.dropped = 0, "BlockingAggregatorDropped")
+                        \* the only errors: the drop error, and the sink's own error when (and only when) it failed
+                        \cup Flag(Ev.err = "" \/ faulted, "UnexpectedRunError")
+          /\ UNCHANGED <<kind, ids, mode, before, pending, nrep, nmatched, nwritten, cancelled, closed, fault, faulted>>
 
 \* discard: every borrowed sample was given back exactly once
 Returned == /\ Ev.ev = "Returned"
             /\ bad' = bad \cup Flag(Ev.n = nrep, "BorrowedSampleNotReturnedOnce")
-            /\ UNCHANGED <<kind, ids, mode, before, pending, nrep, nmatched, nwritten, cancelled, closed, ended>>
+            /\ UNCHANGED <<kind, ids, mode, before, pending, nrep, nmatched, nwritten, cancelled, closed, ended, fault, faulted>>
 
 \* what the destination file finally holds is what the sink received
 Content == /\ Ev.ev = "Content"
-           /\ bad' = bad \cup Flag(Ev.lines = nwritten /\ Ev.partial = 0, "ContentMismatch")
-           /\ UNCHANGED <<kind, ids, mode, before, pending, nrep, nmatched, nwritten, cancelled, closed, ended>>
+           /\ bad' = bad \cup Flag(Ev.lines = nwritten /\ (Ev.partial = 0 \/ faulted), "ContentMismatch")
+           /\ UNCHANGED <<kind, ids, mode, before, pending, nrep, nmatched, nwritten, cancelled, closed, ended, fault, faulted>>
 
 Next == /\ l <= Len(Trace)
         /\ l' = l + 1
-        /\ (Run \/ Report \/ Line \/ JLine \/ LogLine \/ Returned \/ BadLine \/ Cancel \/ SinkClosed \/ EngineEnd \/ RunEnd \/ Content)
+        /\ (Run \/ Report \/ Line \/ JLine \/ LogLine \/ Returned \/ BadLine \/ Cancel \/ SinkFault \/ SinkClosed \/ Open \/ StdDrained \/ EngineEnd \/ RunEnd \/ Content)
 
 Accepted == l <= Len(Trace) => ENABLED Next
 NoViolation == bad = {}
